@@ -196,3 +196,12 @@ func allocArrayLen(a *ssa.Alloc) (int64, bool) {
 	}
 	return at.Len(), true
 }
+
+func chanElemIsInt(v ssa.Value) bool {
+	ch, ok := v.Type().Underlying().(*types.Chan)
+	if !ok {
+		return false
+	}
+	b, ok := ch.Elem().Underlying().(*types.Basic)
+	return ok && b.Kind() == types.Int
+}
